@@ -201,8 +201,11 @@ func checkC07(c *CheckCtx) error {
 	if err := c.cleanCases(c.pick(600, 0)); err != nil {
 		return err
 	}
-	return c.randomClean(c.pick(80, 1500), "a", allCleanModes,
-		cleanGenOpts{maxTests: 4, maxCalls: 4, change: 0.3, drop: 0.3, add: 0.3, staleProb: 0.6, decoyProb: 0.5, sortProb: 0.5, againProb: 0.2, counts: true})
+	if err := c.randomClean(c.pick(80, 1500), "a", allCleanModes,
+		cleanGenOpts{maxTests: 4, maxCalls: 4, change: 0.3, drop: 0.3, add: 0.3, staleProb: 0.6, decoyProb: 0.5, sortProb: 0.5, againProb: 0.2, counts: true}); err != nil {
+		return err
+	}
+	return c.repro(reproK5())
 }
 
 func checkC09(c *CheckCtx) error {
@@ -214,8 +217,11 @@ func checkC09(c *CheckCtx) error {
 	if err := c.cleanCases(c.pick(600, 0)); err != nil {
 		return err
 	}
-	return c.randomClean(c.pick(100, 1500), "b", allCleanModes,
-		cleanGenOpts{maxTests: 3, maxCalls: 4, change: 0.2, drop: 0.5, add: 0.2, staleProb: 0.9, decoyProb: 0.9, sortProb: 0.5, againProb: 0.2, counts: true})
+	if err := c.randomClean(c.pick(100, 1500), "b", allCleanModes,
+		cleanGenOpts{maxTests: 3, maxCalls: 4, change: 0.2, drop: 0.5, add: 0.2, staleProb: 0.9, decoyProb: 0.9, sortProb: 0.5, againProb: 0.2, counts: true}); err != nil {
+		return err
+	}
+	return c.repro(reproK6(false), reproK6(true))
 }
 
 func checkC10(c *CheckCtx) error {
@@ -227,8 +233,11 @@ func checkC10(c *CheckCtx) error {
 	if err := c.cleanCases(c.pick(900, 0)); err != nil {
 		return err
 	}
-	return c.randomClean(c.pick(60, 1200), "s", []string{"default", "clean", "update"},
-		cleanGenOpts{maxTests: 4, maxCalls: 5, change: 0.2, drop: 0.4, add: 0.3, staleProb: 0.8, decoyProb: 0.3, sortProb: 0.8, againProb: 0.6})
+	if err := c.randomClean(c.pick(60, 1200), "s", []string{"default", "clean", "update"},
+		cleanGenOpts{maxTests: 4, maxCalls: 5, change: 0.2, drop: 0.4, add: 0.3, staleProb: 0.8, decoyProb: 0.3, sortProb: 0.8, againProb: 0.6}); err != nil {
+		return err
+	}
+	return c.repro(reproK6(false), reproK6(true))
 }
 
 func checkC20(c *CheckCtx) error {
@@ -245,3 +254,56 @@ func checkC20(c *CheckCtx) error {
 }
 
 func (c *CheckCtx) summaryHistories() error { return nil }
+
+// ---------------------------------------------------------------- reproductions of known findings
+
+// reproK5: -count 2 with executions that make different numbers of calls (3 then 1): Clean divides
+// the cumulative count by -count and judges an addressed entry obsolete.
+func reproK5() *Scenario {
+	sc := &Scenario{ID: "k5", Configs: stdConfigs(), Program: append([]string{}, topTests...), Tags: []string{"repro:K5"}}
+	call := func(i int) *Step {
+		return &Step{Op: "match", API: "snapshot", Cfg: "c", Val: strVal(fmt.Sprintf("value %d", i))}
+	}
+	three := []*Step{call(1), call(2), call(3)}
+	one := []*Step{call(1)}
+	sc.Procs = append(sc.Procs, &Proc{Spec: ProcSpec{}, Real: true, State: "call", Tests: map[string]*TDef{"TestA": {Execs: [][]*Step{three}}}})
+	sc.Procs = append(sc.Procs, &Proc{Spec: ProcSpec{UpdVar: sp("clean"), Count: 2}, Real: true, State: "call", Clean: &CleanDef{},
+		Tests: map[string]*TDef{"TestA": {Execs: [][]*Step{{call(1), call(2), call(3)}, one}}}})
+	sc.Note = "K5 reproduction: -count 2, executions of TestA make 3 and 1 calls"
+	return sc
+}
+
+// reproK6: an entry whose header Clean does not recognise ("[BenchmarkX - 1]") in a file that is
+// rewritten: it is neither reported nor kept.
+func reproK6(sortOnly bool) *Scenario {
+	sc := &Scenario{ID: fmt.Sprintf("k6%v", sortOnly), Configs: stdConfigs(), Program: append([]string{}, topTests...), Tags: []string{"repro:K6"}}
+	sc.Init = append(sc.Init, InitFile{P: "snaps/main_test.snap", Role: "multi",
+		Content: []byte("\n[TestZebra - 1]\nstale\n---\n\n[BenchmarkX - 1]\nbench\n---\n\n[TestA - 1]\nvalue 1\n---\n")})
+	spec := ProcSpec{UpdVar: sp("clean")}
+	cl := &CleanDef{}
+	if sortOnly {
+		spec = ProcSpec{}
+		cl = &CleanDef{Sort: true}
+	}
+	sc.Procs = append(sc.Procs, &Proc{Spec: spec, Real: true, State: "call", Clean: cl,
+		Tests: map[string]*TDef{"TestA": {Execs: [][]*Step{{{Op: "match", API: "snapshot", Cfg: "c", Val: strVal("value 1")}}}}}})
+	sc.Note = fmt.Sprintf("K6 reproduction: file holding a [BenchmarkX - 1] entry is rewritten (sort only = %v)", sortOnly)
+	return sc
+}
+
+// reproK8: `%` in a Filename is interpreted by the Sprintf that substitutes the standalone ordinal.
+func reproK8() *Scenario {
+	sc := &Scenario{ID: "k8", Configs: stdConfigs(), Program: []string{"TestA"}, Tags: []string{"repro:K8"}}
+	sc.Configs["pc"] = &Cfg{Dir: sp("@/snaps"), Filename: sp("100%")}
+	sc.Procs = append(sc.Procs, &Proc{Spec: ProcSpec{}, Steps: []*Step{{Op: "begin", Name: "TestA"},
+		{Op: "match", Name: "TestA", API: "ssnap", Cfg: "pc", Val: strVal("v")}, {Op: "end", Name: "TestA"}}})
+	sc.Note = "K8 reproduction: standalone snapshot with Filename \"100%\""
+	return sc
+}
+
+func (c *CheckCtx) repro(scs ...*Scenario) error {
+	for _, s := range scs {
+		c.nontrivial(s.Note)
+	}
+	return c.runSeq(scs)
+}
